@@ -549,8 +549,23 @@ func runC20(c *Ctx) {
 			}
 		})
 		R.Ob(g+"/closes done once", c.P.Pos(f.Pos()), nClose == 1, fmt.Sprintf("%d close(done) sites", nClose))
+		// the function and the unexported Server helpers it calls (closing code moved into a helper stays in scope)
+		scope := []*ssa.Function{f}
+		scopeSet := map[*ssa.Function]bool{f: true}
+		helperCall := map[*ssa.Function][]ssa.Instruction{}
+		allInstrs(f, func(in ssa.Instruction) {
+			if cc := callCommon(in); cc != nil {
+				if h := staticCallee(cc); h != nil && inSmtp(h) && !isExported(h) && h.Blocks != nil && strings.HasPrefix(funcName(h), "(*Server).") && h.Parent() == nil {
+					if !scopeSet[h] {
+						scopeSet[h] = true
+						scope = append(scope, h)
+					}
+					helperCall[h] = append(helperCall[h], in)
+				}
+			}
+		})
 		la := &lockAnalysis{c: c, entry: map[*ssa.Function]map[string]bool{}, at: map[ssa.Instruction]map[string]bool{}}
-		la.run([]*ssa.Function{f}, map[*ssa.Function]bool{f: true})
+		la.run([]*ssa.Function{f}, scopeSet)
 		// the test of done and its close must be one atomic step (same lock held over both, or sync.Once)
 		allInstrs(f, func(in ssa.Instruction) {
 			if call, ok := in.(*ssa.Call); ok {
@@ -566,50 +581,71 @@ func runC20(c *Ctx) {
 			}
 		})
 		nL := 0
-		allInstrs(f, func(in ssa.Instruction) {
-			if labelHas(c.stdLabels(in), "icall:iface:(net.Listener).Close") {
-				nL++
-				R.Ob(c.siteKey(in, "listeners closed under the server lock"), c.P.InstrPos(in), la.at[in]["Server.locker"], "listener closed without holding Server.locker")
-			}
-			if isStaticCall(in, "(*Conn).Close") {
-				R.Ob(c.siteKey(in, "connections closed under the server lock"), c.P.InstrPos(in), la.at[in]["Server.locker"], "connections closed without holding Server.locker")
-			}
-		})
+		for _, sf := range scope {
+			allInstrs(sf, func(in ssa.Instruction) {
+				if labelHas(c.stdLabels(in), "icall:iface:(net.Listener).Close") {
+					nL++
+					R.Ob(c.siteKey(in, "listeners closed under the server lock"), c.P.InstrPos(in), la.at[in]["Server.locker"], "listener closed without holding Server.locker")
+				}
+				if isStaticCall(in, "(*Conn).Close") {
+					R.Ob(c.siteKey(in, "connections closed under the server lock"), c.P.InstrPos(in), la.at[in]["Server.locker"], "connections closed without holding Server.locker")
+				}
+			})
+		}
 		R.Ob(g+"/closes the listeners", c.P.Pos(f.Pos()), nL == 1, fmt.Sprintf("%d listener close sites", nL))
 		// the closing loops run to completion: no exit from a loop body other than the back edge, and every
 		// return that is not the already-closed refusal has passed the loop
-		for _, li := range findLoops(f) {
-			what := ""
-			for b := range li.blocks {
-				for _, in := range b.Instrs {
-					if labelHas(c.stdLabels(in), "icall:iface:(net.Listener).Close") {
-						what = "listener"
-					} else if isStaticCall(in, "(*Conn).Close") {
-						what = "connection"
+		for _, sf := range scope {
+			for _, li := range findLoops(sf) {
+				what := ""
+				for b := range li.blocks {
+					for _, in := range b.Instrs {
+						if labelHas(c.stdLabels(in), "icall:iface:(net.Listener).Close") {
+							what = "listener"
+						} else if isStaticCall(in, "(*Conn).Close") {
+							what = "connection"
+						}
 					}
 				}
-			}
-			if what == "" || li.body == nil {
-				continue
-			}
-			region := reachableFrom(li.body, func(from, to *ssa.BasicBlock) bool { return to == li.header })
-			esc := ""
-			for b := range region {
-				if !li.blocks[b] {
-					esc = c.P.Pos(firstPos(b))
+				if what == "" || li.body == nil {
+					continue
 				}
+				region := reachableFrom(li.body, func(from, to *ssa.BasicBlock) bool { return to == li.header })
+				esc := ""
+				for b := range region {
+					if !li.blocks[b] {
+						esc = c.P.Pos(firstPos(b))
+					}
+				}
+				R.Ob(g+"/"+what+" loop has no early exit", c.P.Pos(firstPos(li.header)), esc == "", "the loop that closes every "+what+" can be left from inside its body (towards "+esc+"): one failing element leaves the remaining ones open")
+				allInstrs(f, func(in ssa.Instruction) {
+					r, ok := in.(*ssa.Return)
+					if !ok || in.Block() == f.Recover {
+						return
+					}
+					if rv := returnedValues(r); len(rv) > 0 && describe(rv[0]) == "ErrServerClosed" {
+						return
+					}
+					passes := false
+					if sf == f {
+						passes = li.header.Dominates(in.Block())
+					} else {
+						// loop in a helper: some call of the helper dominates the return, and inside the helper the loop
+						// dominates every return
+						for _, cs := range helperCall[sf] {
+							if cs.Block().Dominates(in.Block()) {
+								passes = true
+							}
+						}
+						allInstrs(sf, func(x ssa.Instruction) {
+							if _, isR := x.(*ssa.Return); isR && x.Block() != sf.Recover && !li.header.Dominates(x.Block()) {
+								passes = false
+							}
+						})
+					}
+					R.Ob(c.siteKey(in, "return passes the "+what+" loop"), c.P.InstrPos(in), passes, "return is reachable without running the loop that closes every "+what)
+				})
 			}
-			R.Ob(g+"/"+what+" loop has no early exit", c.P.Pos(firstPos(li.header)), esc == "", "the loop that closes every "+what+" can be left from inside its body (towards "+esc+"): one failing element leaves the remaining ones open")
-			allInstrs(f, func(in ssa.Instruction) {
-				r, ok := in.(*ssa.Return)
-				if !ok || in.Block() == f.Recover {
-					return
-				}
-				if rv := returnedValues(r); len(rv) > 0 && describe(rv[0]) == "ErrServerClosed" {
-					return
-				}
-				R.Ob(c.siteKey(in, "return passes the "+what+" loop"), c.P.InstrPos(in), li.header.Dominates(in.Block()), "return is reachable without running the loop that closes every "+what)
-			})
 		}
 	}
 	if f := c.A.Func("(*Server).Close"); f != nil {
